@@ -18,6 +18,9 @@ def obligations(tier):
     obs.append(o)
     o = ob("C01", "e2c.lazy.D14", "vt.harness.C01:justified", {"did": "D14", "steps": 11, "statuses": ["succeeded"], "max_inflight": 1, "order": False, "lazy_start": 3}, timeout=1800)
     obs.append(o)
+    o = ob("C01", "e2c.requested.D12", "vt.harness.C01:justified", {"did": "D12", "steps": 7, "requested_first": True}, timeout=900)
+    o["antecedents"] = ["c01_final"]
+    obs.append(o)
     obs.append(ob("C01", "twin.D03", "vt.harness.C01:justified", {"did": "D03", "steps": 5, "bits": True, "twin": True}, timeout=60))
     for o in obs:
         if "e2c." in o["id"]:
